@@ -162,12 +162,23 @@ func textrtLitToken(s string) []string {
 			iv = z.Text(16)
 		}
 	}
-	f64, e64 := strconv.ParseFloat(s, 64)
-	f32, e32 := strconv.ParseFloat(s, 32)
-	if e64 != nil || e32 != nil || s == "nan" || strings.HasSuffix(s, "inf") {
-		return []string{"L", HexB([]byte(s)), iv, "-", "-"}
+	// strconv.ParseFloat at both sizes; a range error still yields the (infinite) value, as Token.Float32/64 accept it
+	ann := func(bits int) string {
+		f, err := strconv.ParseFloat(s, bits)
+		if err != nil {
+			if ne, ok := err.(*strconv.NumError); !ok || ne.Err != strconv.ErrRange {
+				return "-"
+			}
+		}
+		if s == "nan" || strings.HasSuffix(s, "inf") || strings.HasSuffix(s, "infinity") {
+			return "-"
+		}
+		if bits == 32 {
+			return HexN(uint64(math.Float32bits(float32(f))))
+		}
+		return HexN(math.Float64bits(f))
 	}
-	return []string{"L", HexB([]byte(s)), iv, HexN(math.Float64bits(f64)), HexN(uint64(math.Float32bits(float32(f32))))}
+	return []string{"L", HexB([]byte(s)), iv, ann(64), ann(32)}
 }
 
 // msg reads fields up to the closing brace (top = up to the end of input).
@@ -482,7 +493,7 @@ func textrtCorpus(c *Ctx, all []*rtTarget, cfg textrtCfg) {
 }
 
 func famTextrt(c *Ctx) {
-	cfg := textrtCfg{emitC: false}
+	cfg := textrtCfg{emitC: true}
 	nrnd := c.N / 40
 	if nrnd < 4 {
 		nrnd = 4
